@@ -196,3 +196,75 @@ def c14_cases(ctx, binary, root, rnd, n):
                       "exit": code, "report_written": rep is not None, "request": req, "oracle": verdict, "why": why})
         shutil.rmtree(d, ignore_errors=True)
     return cases
+
+
+def c18_cases(ctx, binary, root, rnd, n, use_strace=False):
+    """scratch trees, every choice of working directory relative to the analysed tree, repeated runs,
+    pre-existing report; full byte snapshot before / after"""
+    cases = []
+    for k in range(n):
+        d = os.path.join(root, f"w{k}")
+        proj = os.path.join(d, "proj")
+        make_fixture(os.path.join(proj, "contracts"), rnd)
+        other = os.path.join(d, "elsewhere")
+        os.makedirs(other)
+        open(os.path.join(other, "keep.txt"), "w").write("untouched\n")
+        mode = ["cwd_parent_default", "cwd_outside_path", "cwd_is_analysed_dir", "cwd_inside_subdir"][k % 4]
+        if mode == "cwd_parent_default":
+            cwd, args = proj, []
+        elif mode == "cwd_outside_path":
+            cwd, args = other, ["--path", os.path.join(proj, "contracts")]
+        elif mode == "cwd_is_analysed_dir":
+            cwd, args = os.path.join(proj, "contracts"), ["--path", "."]
+        else:
+            cwd, args = os.path.join(proj, "contracts", "sub"), ["--path", ".."]
+        stale = rnd.random() < 0.6
+        if stale:
+            open(os.path.join(cwd, "solstat_report.md"), "w").write("STALE REPORT\n- Fake.sol:1\n" * rnd.randrange(1, 50))
+        before = snapshot(d)
+        reports = []
+        problems = []
+        writes = None
+        runs = 3 if k % 2 == 0 else 2
+        for r in range(runs):
+            if use_strace and r == 0 and shutil.which("strace"):
+                log = os.path.join(d, "..", f"strace{k}.log")
+                p = subprocess.run(["strace", "-f", "-e", "trace=file", "-o", log, binary] + args, cwd=cwd, stdout=subprocess.PIPE, stderr=subprocess.PIPE)
+                code = p.returncode
+                rp = os.path.join(cwd, "solstat_report.md")
+                rep = open(rp, "rb").read() if os.path.exists(rp) else None
+                import re
+                writes = set()
+                for l in open(log, errors="replace"):
+                    m = re.search(r'open(?:at)?\((?:AT_FDCWD, )?"([^"]+)", ([A-Z_|]+)', l)
+                    if m and any(f in m.group(2) for f in ("O_WRONLY", "O_RDWR", "O_CREAT", "O_TRUNC", "O_APPEND")):
+                        writes.add(os.path.normpath(os.path.join(cwd, m.group(1))))
+                    m2 = re.search(r'(unlink|rename|mkdir|rmdir|chmod|truncate|link|symlink)(?:at)?\(', l)
+                    if m2 and "ENOENT" not in l:
+                        problems.append("file-system mutation: " + l.strip()[:160])
+                os.unlink(log)
+            else:
+                code, rep, err = run_solstat(binary, cwd, args)
+            reports.append((code, rep))
+        after = snapshot(d)
+        rel_report = os.path.relpath(os.path.join(cwd, "solstat_report.md"), d)
+        changed = {p for p in set(before) | set(after) if before.get(p) != after.get(p)}
+        if changed - {rel_report}:
+            problems.append(f"paths changed besides the report: {sorted(changed - {rel_report})[:5]}")
+        if rel_report not in after:
+            problems.append("no report written")
+        if any(c != 0 for c, _ in reports):
+            problems.append(f"exit codes {[c for c, _ in reports]}")
+        if len({hashlib.sha1(r or b'').hexdigest() for _, r in reports}) != 1:
+            problems.append("repeated runs produce different reports (a previous report influences the next, or appended)")
+        if reports[0][1] is not None and b"STALE REPORT" in reports[0][1]:
+            problems.append("the previous report's content survives (appended, not overwritten)")
+        if writes is not None and writes - {os.path.normpath(os.path.join(cwd, "solstat_report.md"))}:
+            extra_w = sorted(w for w in writes - {os.path.normpath(os.path.join(cwd, "solstat_report.md"))} if not w.startswith("/dev/") and not w.startswith("/proc/"))
+            if extra_w:
+                problems.append(f"opened for writing: {extra_w[:5]}")
+        cases.append({"mode": mode, "args": [a.replace(d, "<case>") for a in args], "stale_report": stale, "runs": runs,
+                      "report_sha1": hashlib.sha1(reports[0][1] or b"").hexdigest(), "report_bytes": len(reports[0][1] or b""),
+                      "strace": writes is not None, "problems": problems})
+        shutil.rmtree(d, ignore_errors=True)
+    return cases
